@@ -211,7 +211,11 @@ func c09BGV(ctx *core.RunCtx, scaleInvariant bool) *c09Scheme {
 		case vInt:
 			return int(g.Next()%(2*T)) - int(T)
 		default:
-			// big integers below and far above T, negative too
+			// big integers below and far above T, negative too; one in three is already reduced (in [0, T),
+			// either half: where a reduction or a copy made for it has nothing to do)
+			if g.Next()%3 == 0 {
+				return new(big.Int).SetUint64(g.Next() % T)
+			}
 			b := new(big.Int).SetUint64(g.Next())
 			if g.Next()%2 == 0 {
 				b.Mul(b, new(big.Int).SetUint64(g.Next()))
@@ -270,7 +274,7 @@ func c09BGV(ctx *core.RunCtx, scaleInvariant bool) *c09Scheme {
 		}, callNew: func(e any, a *rlwe.Ciphertext, b any, k int) (*rlwe.Ciphertext, error) {
 			return ev(e).MulRelinScaleInvariantNew(a, b)
 		}},
-		{name: "MulThenAdd", op1: []int{vCt, vPt, vVec, vU64, vInt}, accum: true, deg: degMul, call: func(e any, a *rlwe.Ciphertext, b any, k int, o *rlwe.Ciphertext) error {
+		{name: "MulThenAdd", op1: []int{vCt, vPt, vVec, vU64, vI64, vInt, vBig}, accum: true, deg: degMul, call: func(e any, a *rlwe.Ciphertext, b any, k int, o *rlwe.Ciphertext) error {
 			return ev(e).MulThenAdd(a, b, o)
 		}},
 		{name: "MulRelinThenAdd", op1: []int{vCt, vPt, vVec}, accum: true, deg: degRelin, call: func(e any, a *rlwe.Ciphertext, b any, k int, o *rlwe.Ciphertext) error {
